@@ -1,4 +1,4 @@
-SPECIFICATION Spec
+SPECIFICATION MCSpec
 CONSTANTS Tier = "thorough"
           Styles = {"plain", "dot", "updown"}
           Allows = {TRUE}
